@@ -143,6 +143,11 @@ Definition ilab_b (L a b : R) : R := to_srgb_nc (ilab_lb (ilab_X L a b) (ilab_Y 
 Definition cie_f (t : R) : R :=
   if Rltb ((6 / 29) ^ 3) t then Rpower t (1 / 3) else t / (3 * (6 / 29) ^ 2) + 4 / 29.
 
+(* CIE 1976 L*a*b* of a tristimulus value (X, Y, Z) relative to the white (Xn, Yn, Zn), written from the standard *)
+Definition cie_L (X Y Z Xn Yn Zn : R) : R := 116 * cie_f (Y / Yn) - 16.
+Definition cie_a (X Y Z Xn Yn Zn : R) : R := 500 * (cie_f (X / Xn) - cie_f (Y / Yn)).
+Definition cie_b (X Y Z Xn Yn Zn : R) : R := 200 * (cie_f (Y / Yn) - cie_f (Z / Zn)).
+
 (* layout decision of srgb_to_lab / lab_to_srgb on the shape of their argument (repaired code):
    a 4-D argument is a batch of images; a 3-D argument is channel-last only when its last extent is 3
    and its first is not *)
